@@ -43,22 +43,35 @@ fn run_slice(engine: &str, rlimit: Option<u64>, timeout_ms: u64, lines: &[String
     let mut outs = Vec::with_capacity(lines.len());
     let mut w = spawn(engine, rlimit);
     for line in lines {
-        let sent = writeln!(w.stdin, "{}", line).and_then(|_| w.stdin.flush());
-        let res = if sent.is_err() {
-            Err(RecvTimeoutError::Disconnected)
-        } else {
-            w.rx.recv_timeout(Duration::from_millis(timeout_ms))
-        };
-        match res {
-            Ok(l) => outs.push(l),
-            Err(e) => {
-                let _ = w.child.kill();
-                let _ = w.child.wait();
-                outs.push(match e {
-                    RecvTimeoutError::Timeout => "hang".to_string(),
-                    RecvTimeoutError::Disconnected => "abort".to_string(),
-                });
-                w = spawn(engine, rlimit);
+        // A time-out is retried once in a fresh child: a stall of the whole machine (all workers timing out at the
+        // same instant) must not be reported as a hang of the code under test. A real hang times out twice.
+        let mut attempt = 0;
+        loop {
+            let sent = writeln!(w.stdin, "{}", line).and_then(|_| w.stdin.flush());
+            let res = if sent.is_err() {
+                Err(RecvTimeoutError::Disconnected)
+            } else {
+                w.rx.recv_timeout(Duration::from_millis(timeout_ms))
+            };
+            match res {
+                Ok(l) => {
+                    outs.push(l);
+                    break;
+                }
+                Err(e) => {
+                    let _ = w.child.kill();
+                    let _ = w.child.wait();
+                    w = spawn(engine, rlimit);
+                    if matches!(e, RecvTimeoutError::Timeout) && attempt == 0 {
+                        attempt += 1;
+                        continue;
+                    }
+                    outs.push(match e {
+                        RecvTimeoutError::Timeout => "hang".to_string(),
+                        RecvTimeoutError::Disconnected => "abort".to_string(),
+                    });
+                    break;
+                }
             }
         }
     }
